@@ -220,7 +220,7 @@ PROPS["C12"] = _decode_prop(
     "neither a magic constant nor tighter than the arithmetic allows; nothing is demanded of the relation between the first N-best score and the "
     "best-path score (the statement does not relate them)",
     _SCEN + "Audio is capped at ~4 s. Non-trivial and distinct as for C01.",
-    dict(min_evaluations=150, min_distinct=40, counters={"bestpaths_checked": 50, "posterior_lattices_checked": 50, "nbest_entries_checked": 100,
+    dict(min_evaluations=150, min_distinct=40, counters={"bestpath_texts_compared_with_path": 50, "scenarios_with_insertion_bonus": 5, "bestpaths_checked": 50, "posterior_lattices_checked": 50, "nbest_entries_checked": 100,
                                                         "nbest_lists_with_several_entries": 10, "node_conservation_checks": 500}),
     quick=(200, 400), thorough=(5000, 12000))
 
@@ -312,7 +312,7 @@ PROPS["C16"] = dict(
                "rejected when x is unknown",
     rule="one case = one history; non-trivial = at least one successful addition; distinct = (case, additions, rejections).",
     stages=[dict(harness="h_dict", flavor="asan", quick=96, thorough=1200, leaks=True), dict(harness="h_dict", flavor="fast", quick=160, thorough=3000, name="h_dict_fast")],
-    floor=dict(min_evaluations=80, min_distinct=40, counters={"successful_additions": 500, "alternates_added": 50, "rejections_duplicate": 20, "rejections_empty_word": 10,
+    floor=dict(min_evaluations=80, min_distinct=40, counters={"alignment_texts_with_added_words_of_any_pronunciation": 50, "alternates_tried_right_after_a_longer_word_with_the_same_stem": 50, "successful_additions": 500, "alternates_added": 50, "rejections_duplicate": 20, "rejections_empty_word": 10,
                                                              "rejections_empty_pron": 10, "rejections_unknown_phone": 10, "utterances_with_added_words": 20,
                                                              "histories_past_reallocation_step": 1, "one_phone_words_added": 10, "existing_word_checks": 2000}),
     assumptions=[A_SAN, A_GEN],
@@ -333,7 +333,7 @@ PROPS["C10"] = dict(
     stages=[dict(harness="h_fuzz", flavor="asan", quick=21000, thorough=280000, hang_violation=True),
             dict(harness="h_fuzz", flavor="fast", quick=35000, thorough=700000, hang_violation=True, name="h_fuzz_fast"),
             dict(harness="h_fuzz", flavor="plain", valgrind=True, quick=0, thorough=3500, tiers=["thorough"], name="h_fuzz_memcheck")],
-    floor=dict(min_evaluations=20000, min_distinct=10000, counters={"objects_returned_jsgf": 100, "objects_returned_fsg": 100, "objects_returned_dict": 100,
+    floor=dict(min_evaluations=20000, min_distinct=10000, counters={"library_log_messages_formatted": 1000, "objects_returned_jsgf": 100, "objects_returned_fsg": 100, "objects_returned_dict": 100,
                                                                    "objects_returned_config": 100, "grammars_loaded_into_decoder": 50, "short_decodes": 50,
                                                                    "words_accepted": 20, "texts_accepted": 20, "fsgs_built_from_jsgf": 100, "large_vocabulary_grammars": 200}),
     assumptions=[A_SAN, A_GEN],
@@ -442,7 +442,7 @@ PROPS["C09"] = dict(
     stages=[dict(harness="h_api", flavor="asan", quick=600, thorough=12000, leaks=True),
             # uninitialised reads are invisible to ASan: a slice of the same histories under valgrind memcheck, thorough tier only
             dict(harness="h_api", flavor="plain", valgrind=True, quick=0, thorough=48, tiers=["thorough"], name="h_api_memcheck")],
-    floor=dict(min_evaluations=500, min_distinct=400, counters={"api_calls": 10000, "hostile_histories": 100, "conforming_histories": 250, "utterances_ended": 300,
+    floor=dict(min_evaluations=500, min_distinct=400, counters={"config_serialization_round_trips": 20, "decoders_assembled_piecewise_from_memory_buffers": 5, "reinit_feat_with_new_config": 3, "api_calls": 10000, "hostile_histories": 100, "conforming_histories": 250, "utterances_ended": 300,
                                                               "out_of_order_audio_after_end": 15, "out_of_order_audio_before_start": 15, "out_of_order_start_twice": 10,
                                                               "out_of_order_end_without_start": 15, "degenerate_argument_calls": 30, "iterators_abandoned_half_way": 200,
                                                               "lattices_returned": 100, "alignments_returned": 100, "nbest_iterators_returned": 50, "usability_probes": 300,
